@@ -93,6 +93,15 @@ func c0910(args []string) error {
 				out = append(out, p)
 			}
 		}
+		// the same document with a loose "bbox" member on every object: a bbox member is a foreign member, the rectangle
+		// of an object is computed from its positions
+		loose := strings.ReplaceAll(text, `{"type":`, `{"bbox":[-170,-80,170,80],"type":`)
+		for _, ic := range []int{0, 1, 64} {
+			po := geojson.ParseOptions{IndexChildren: ic, IndexGeometry: 64, IndexGeometryKind: geometry.QuadTree}
+			if p, err := geojson.Parse(loose, &po); err == nil {
+				out = append(out, p)
+			}
+		}
 		return out
 	}
 	var facts, factMism int64
@@ -328,6 +337,7 @@ func wildLeaves() []Tree {
 		ln([]int{1, 1}, []int{5, 1}), ln([]int{2, 1}, []int{4, 1}), ln([]int{2, 3}, []int{4, 3}), ln([]int{0, 3}, []int{6, 3}), ln([]int{0, 0}, []int{1, 1}),
 		ln([]int{0, 0}, []int{3, 0}, []int{6, 0}), ln([]int{0, 0}, []int{6, 0}, []int{6, 6}), ln([]int{1, 1}, []int{5, 1}, []int{5, 5}, []int{1, 5}, []int{1, 1}),
 		ln([]int{0, 1}, []int{1, 1}, []int{1, 0}), ln([]int{3, 0}, []int{3, 1}),
+		ln([]int{3, 3}, []int{3, 3}), ln([]int{1, 1}, []int{1, 1}, []int{1, 1}), ln([]int{3, 1}, []int{3, 1}), // all positions equal
 		rc(2, 1, 4, 1), rc(1, 2, 1, 4), rc(3, 3, 3, 3), rc(1, 1, 1, 1), rc(1, 1, 5, 5), rc(0, 0, 6, 6), rc(2, 2, 4, 4), rc(0, 0, 6, 0), rc(0, 0, 1, 1),
 		pt(3, 1), pt(3, 3), pt(1, 1), pt(0, 0), pt(7, 7), {Kind: "SimplePoint", P: []int{5, 3}},
 		{Kind: "MultiPoint", Pts: [][]int{{3, 3}, {3, 1}}}, {Kind: "MultiPoint", Pts: [][]int{{0, 0}, {6, 6}}},
@@ -348,6 +358,18 @@ func equivalents(t Tree) []Tree {
 		out = append(out, Tree{Kind: "SimplePoint", P: t.P})
 	case "SimplePoint":
 		out = append(out, Tree{Kind: "Point", P: t.P})
+	}
+	// a collection with one child answers as the child (C10 with a single child)
+	switch t.Kind {
+	case "Point":
+		out = append(out, Tree{Kind: "MultiPoint", Pts: [][]int{t.P}})
+	case "LineString":
+		out = append(out, Tree{Kind: "MultiLineString", Rings: [][][]int{t.Pts}})
+	case "Polygon":
+		out = append(out, Tree{Kind: "MultiPolygon", Polys: [][][][]int{t.Rings}})
+	}
+	if t.Kind != "Feature" && t.Kind != "GeometryCollection" {
+		out = append(out, Tree{Kind: "GeometryCollection", Kids: []Tree{t}})
 	}
 	// a Feature around a collection is the known finding KF-C09-feature-parts (judged against L1 / L2 in the relation rows)
 	if t.Kind != "Feature" && !strings.HasPrefix(t.Kind, "Multi") && !strings.HasSuffix(t.Kind, "Collection") {
